@@ -241,6 +241,22 @@ func (w *srvWorld) checkC08(active0 string) {
 		if settled < fc {
 			proven = true
 		}
+		// ... or, when the connection ended through the channel itself (the peer
+		// hung up, a Recv failed), by the order of the channel: a record whose
+		// Recv returned before the Recv that reported the end was received before
+		// that end. This proof must not be raced by a Stop() or a failed Send,
+		// which can overtake records the server has read but not yet dealt with.
+		if end := w.endReportedAt(); end >= 0 && msg.Arrive < end {
+			raced := false
+			for _, c := range w.causes {
+				if (c.Kind == "stopped" || c.Optional) && c.Begin < end && c.Begin < settled {
+					raced = true
+				}
+			}
+			if !raced {
+				proven = true
+			}
+		}
 		if !proven {
 			continue
 		}
@@ -433,4 +449,15 @@ func (w *srvWorld) servedAfter(c stopCause) bool {
 		}
 	}
 	return false
+}
+
+// endReportedAt returns the sequence number at which the server's Recv reported
+// the end of the channel or a failure without handing over a record (-1: never).
+func (w *srvWorld) endReportedAt() int {
+	for seq, e := range w.r.Sim.Events {
+		if e.Kind == "ch.recv.ret" && e.Tag == w.sEnd.Name && strings.HasPrefix(e.S, "|") && len(e.S) > 1 {
+			return seq
+		}
+	}
+	return -1
 }
